@@ -472,6 +472,117 @@ def _random_chunk(ctx, d, emb, exe, tdir, replay_base, progs, nsched, acc, sched
             os.unlink(os.path.join(tdir, f))
 
 
+# --------------------------------------------------------------------------- round 3: schedule independence of properly locked programs
+def run_sv(ctx, d, emb, exe, replay_base, nprog, nsched, nneg):
+    """programs of coq/C11/Prog.v (round-2 random programs translated, with read-modify-write accesses to shared variables
+    inside the critical sections of the variable's mutex).  Class membership is decided by the extracted checker
+    `properly_locked`; the expected store and thread results come from the extracted `run` on ONE canonical schedule
+    (theorem schedule_independence_locked_partial: every finishing run of a program of the class has that outcome); the
+    real binary must print exactly that under every injected schedule.  Negative control: programs that update a shared
+    variable without its mutex must be rejected by the checker and must show different results on the real binary for
+    some pair of schedules (the class is not vacuous, the hook pre-empts inside unprotected sections)."""
+    rng = ctx.rng
+    progs = [R.to_sv(rng) for _ in range(nprog)] + [R.to_sv(rng, True) for _ in range(max(2, nprog // 10))]
+    negs = [R.neg_program(rng) for _ in range(nneg)]
+    allp = progs + negs
+    try:
+        ans = ctx.run_model(exe, ["prog 400000 - " + p["tokens"] for p in allp])
+    except Exception as e:
+        ctx.broken("correspondence:model-driver", "the extracted model driver failed on the Prog.v programs: %s" % str(e)[-500:])
+        return
+    reqs, meta = [], []
+    for pi, p in enumerate(allp):
+        if p["kind"] == "unlocked":
+            scs = ["-", "seed:%d:2" % rng.randrange(1, 10 ** 6), "seed:%d:3" % rng.randrange(1, 10 ** 6), "seed:%d:5" % rng.randrange(1, 10 ** 6),
+                   "seed:%d:13" % rng.randrange(1, 10 ** 6), "seed:%d:40" % rng.randrange(1, 10 ** 6), "list:" + ",".join(["7"] * 200), "list:" + ",".join(["2"] * 400)]
+        else:
+            scs = ["-", "seed:%d:%d" % (rng.randrange(1, 10 ** 6), rng.choice([2, 3, 5]))] + seed_schedules(rng, max(0, nsched - 2))
+        for sc in scs:
+            reqs.append((sc, "1000", "-", p["expr"]))
+            meta.append((pi, sc))
+    outs = parallel_batches(d, emb, reqs, jobs=4, limit=6)
+    by = {}
+    for (pi, sc), o in zip(meta, outs):
+        by.setdefault(pi, []).append((sc, o))
+    stats = dict(in_class=0, outside_class=0, runs=len(reqs), in_class_runs=0, negative_programs=len(negs), negative_schedule_dependent=0,
+                 unlocked_mixed=0, unlocked_mixed_schedule_dependent=0, canonical_not_finished=0)
+    found = {}
+
+    def hit(cls, **kw):
+        if cls not in found:
+            found[cls] = kw
+    first = None
+    for pi, p in enumerate(allp):
+        a = ans[pi]
+        m = re.match(r"PL([01]) (?:F (\S*) \| (\S*)|(\w+))$", a or "")
+        if not m:
+            ctx.broken("correspondence:model-driver", "unparsable answer to a prog request: %r" % (a,))
+            return
+        pl = m.group(1) == "1"
+        rp = lambda sc: "printf '%s\\t1000\\t-\\t%s\\n' | %s" % (sc, p["expr"].replace("'", "'\\''"), replay_base)
+        res = by.get(pi, [])
+        for sc, o in res:
+            ctx.count(1, key=(p["expr"], sc), nontrivial=(sc != "-"))
+        distinct = sorted(set(o for sc, o in res if o not in ("SKIPPED",)))
+        if p["kind"] == "locked":
+            if not pl:
+                stats["outside_class"] += 1
+                continue
+            stats["in_class"] += 1
+            if m.group(4):
+                stats["canonical_not_finished"] += 1
+                if "canon" not in found:
+                    found["canon"] = None
+                    ctx.broken("model:canonical-run-not-finished", "Prog.run on the canonical schedule ends with %s for a properly locked, deadlock-free program (liveness is not proved, "
+                               "this is its check): %s" % (m.group(4), p["expr"]))
+                continue
+            expected = "(0 0 (%s) (%s))" % (m.group(2).replace(",", " "), m.group(3).replace(",", " "))
+            if first is None:
+                first = dict(kind="properly-locked", program=p["expr"][:500], expected_from_model_canonical_run=expected, impl=[(sc[:30], o) for sc, o in res][:4])
+            for sc, o in res:
+                if o == "SKIPPED":
+                    continue
+                stats["in_class_runs"] += 1
+                if o == expected:
+                    continue
+                inp = dict(program=p["expr"], schedule=sc[:300], clock="1000", properly_locked=True)
+                if o in (None, "TIMEOUT"):
+                    hit("schedule-independence:hang", input=inp, expected=expected, observed=str(o), replay=rp(sc))
+                elif (o or "").startswith("CRASH") or (o or "").startswith("EXC"):
+                    hit("schedule-independence:" + ("crash" if o.startswith("CRASH") else "exception"), input=inp, expected=expected, observed=o[:300], replay=rp(sc))
+                else:
+                    try:
+                        r = R.read_sexp(o)
+                        e = R.read_sexp(expected)
+                        what = ("mutual-exclusion" if r[0] != 0 else "untimed-lock-failed" if r[1] != 0 else "final-store" if r[2] != e[2] else "thread-result")
+                    except Exception:
+                        what = "result-shape"
+                    hit("schedule-independence:" + what, input=inp, expected=expected + "   (Prog.run on the canonical schedule; the same for every schedule by schedule_independence_locked_partial)",
+                        observed=o[:300], other_schedules=[(s2[:40], o2) for s2, o2 in res if s2 != sc][:3], replay=rp(sc))
+        else:
+            if pl:
+                ctx.broken("checker:properly_locked-accepts-unlocked-access", "the extracted checker accepts a program with an access outside its mutex: %s" % p["expr"])
+                continue
+            dep = len(distinct) >= 2
+            if p["kind"] == "unlocked":
+                stats["negative_schedule_dependent"] += dep
+            else:
+                stats["unlocked_mixed"] += 1
+                stats["unlocked_mixed_schedule_dependent"] += dep
+    ctx.cov["locked_programs"] = stats
+    for cls, det in found.items():
+        if det is not None:
+            ctx.violation(cls, **det)
+    if negs and stats["negative_schedule_dependent"] * 2 < len(negs):
+        ctx.broken("negative-control:unlocked-programs-look-schedule-independent",
+                   "only %d of %d programs that increment a shared variable without its mutex printed different results under 8 schedules: the slice hook does not "
+                   "pre-empt inside unprotected sections (or the harness ignores CHIBI_VERIF_SCHED)" % (stats["negative_schedule_dependent"], len(negs)))
+    if first:
+        ctx.sample(first)
+    ctx.assume("Prog.v micro-steps: each instruction of harness/c11_progs.scm prog-sv makes at most one access to shared state (one primitive call, one vector-ref or one "
+               "vector-set! of the store), so every pre-emption point of the VM corresponds to a boundary between two micro-steps of Prog.run")
+
+
 # --------------------------------------------------------------------------- harness driving
 def run_batch(d, emb, reqs, limit=5, timeout=120):
     """reqs: list of (sched, clock, trace, expr); returns list of answers ('TIMEOUT'/'CRASH..' per hung request)"""
@@ -750,6 +861,9 @@ def run(ctx):
                           nsched=(3 if not ctx.thorough else 4))
     ctx.cov["trace_lines_compared"] = n_lines
     ctx.sample(dict(kind="inner", traces=ctx.cov["traces_validated_against_impl"], lines=n_lines))
+    # ---------------------------------------------------------------- round 3: properly locked programs, expected outcome from Prog.run
+    run_sv(ctx, d, emb, exe, replay_base, nprog=(150 if not ctx.thorough else 2500), nsched=(4 if not ctx.thorough else 8),
+           nneg=(12 if not ctx.thorough else 60))
     for f in os.listdir(tdir):
         os.unlink(os.path.join(tdir, f))
 
